@@ -33,7 +33,13 @@ _basenode.__name__ = "basenode_url"
 def nav_task():
     def run():
         from bounded import c09
-        return navlinks.obligations(PROP, replay=c09.replay_shape)
+        memo = {}
+
+        def missing():      # one whole-site search serves every link whose page's creation statement was not found
+            if "hit" not in memo:
+                memo["hit"] = c09.site_search(options=c09.OPTIONS[:1] + c09.OPTIONS[3:])
+            return memo["hit"]
+        return navlinks.obligations(PROP, replay=c09.replay_shape, missing_replay=missing)
     return Task(f"{PROP}.S.navlinks", PROP, "templates", run)
 
 
@@ -89,6 +95,9 @@ def build(tier, seed):
             return [r]
         return Task(f"{PROP}.Bd.site.dotdot", PROP, "site", run)
     tasks = [a_task(PROP, _get_url), a_task(PROP, _basenode), nav_task(), norm_task(), builder_task(), dotdot_task()] + [site_task(s) for s in c09.SHAPES]
+    tasks.append(standin_task(PROP, "site.static_pages_in_search_index", lambda: c09.static_pages_in_search_index(), "ford.main (real run) + search database",
+                              "a page tree two directories deep with search on: every static page is indexed under the address it is written at and every indexed address exists", "1 project", 1))
+    tasks.append(Task(f"{PROP}.S.converter_reset", PROP, "ford.sourceform.FortranBase.markdown", lambda: __import__("contracts.docstrings", fromlist=["x"]).converter_reset_obligations(PROP)))
     tasks.append(Task(f"{PROP}.S.page_of_the_context", PROP, "MetaMarkdown.convert", lambda: __import__("contracts.links", fromlist=["x"]).page_of_the_context(PROP, lambda: c09.site_search(shape_names=("constructors local types and file links",), options=[c09.OPTIONS[2]]))))
     tasks.append(Task(f"{PROP}.S.favicon", PROP, "Documentation.writeout", lambda: __import__("contracts.plumbing", fromlist=["x"]).favicon_copy(PROP, lambda: c09.site_search(shape_names=("custom icon",), options=[c09.OPTIONS[0]]))))
     tasks.append(Task(f"{PROP}.S.source_copies", PROP, "Documentation.writeout", lambda: __import__("contracts.plumbing", fromlist=["x"]).source_copies(PROP, lambda: c09.site_search(shape_names=("capitalised file names",)))))
